@@ -102,6 +102,10 @@ LEVEL_NOTE = ('The reference sum reuses the repository F^2_lmp / G^2_lpq tables 
               'summation are independent. Validity range of a truncation is defined operationally by the harness sums (10 % of e^20).')
 CASES = {'quick': 4000, 'thorough': 100000}
 SHARDS = {'quick': 16, 'thorough': 16}
+# coverage-guided shards (vlib/fuzz_shard.py): libFuzzer drives the same strategy, guided by branch coverage of the pure-Python
+# driver that routes scalar / array / None / period-or-frequency arguments (the numeric kernels are numba-jitted and not instrumented)
+FUZZ = {'instrument': ['TidalPy.toolbox.quick_tides'], 'shards': {'quick': 0, 'thorough': 4},
+        'cases': {'quick': 0, 'thorough': 4000}}
 TOL = 1.0e-10
 SIGN_TOL = 1.0e-12
 RULE = ('Hypothesis draws the orbital/spin state, body, rheology and call shape described in the module docstring (a/R, e, spin/n with '
